@@ -211,8 +211,10 @@ class SolverWrapper:
                     self.solver.changeColsBounds(len(idxs), idxs, vals, vals)
                 if self._pending_lb_vars:
                     last_lb = {v.index: val for v, val in zip(self._pending_lb_vars, self._pending_lb_vals)}
-                    idxs = np.array(list(last_lb.keys()), dtype=np.int32)
-                    lbs  = np.array(list(last_lb.values()), dtype=np.float64)
+                    # Highs.getCols (used in the fallback below) needs an increasing index set
+                    sorted_idxs = sorted(last_lb)
+                    idxs = np.array(sorted_idxs, dtype=np.int32)
+                    lbs  = np.array([last_lb[i] for i in sorted_idxs], dtype=np.float64)
                     # Prefer dedicated lower bound update if available, else fall back to bounds change with UB unchanged
                     if hasattr(self.solver, "changeColsLower"):
                         self.solver.changeColsLower(len(idxs), idxs, lbs)
